@@ -51,8 +51,8 @@ func s1Table() []GuardRow {
 			Except: map[string]string{"TxnPoliciesAccessor).GetCurrentPoliciesData": "unlocked reads only feed the error log on the not-found path; the lookup itself is locked (C11.R1)"}},
 		{Pkg: pkgVacuum, Struct: "MapVacuum", Fields: []string{"entries"}, Mutex: "entriesMutex", MinSites: 5},
 		{Pkg: pkgVacuum, Struct: "MapVacuum", Fields: []string{"mapToVacuum"}, Mutex: "mapMutex", MinSites: 1},
-		{Pkg: pkgUtils, Struct: "MemoryCache", Fields: []string{"cache", "currentCacheSize"}, Mutex: "mutex", MinSites: 12,
-			Except: map[string]string{"MemoryCache).Set": "advisory pre-check of currentCacheSize outside the lock; the deciding check is repeated under the lock (C12.R5)"}},
+		{Pkg: pkgUtils, Struct: "MemoryCache", Fields: []string{"cache", "currentCacheSize", "calculateCacheSize", "calculateSizeFunc", "maxCacheSize"}, Mutex: "mutex", MinSites: 20},
+		{Pkg: pkgLctx, Struct: "ExpireWatcher", Fields: []string{"keysToRemove", "started"}, Mutex: "mu", MinSites: 5},
 		{Pkg: pkgStreams, Struct: "flowMetricsData", Fields: []string{"flowInvocationsCounter", "avgFlowExecutionTime"}, Mutex: "mu", MinSites: 5, NoEscape: true},
 		{Pkg: pkgStreams, Struct: "processorMetricsData", Fields: []string{"avgProcessorExecutionTime"}, Mutex: "mu", MinSites: 2},
 		{Pkg: pkgRemedies, Struct: "StrategyBasedThrottlingPlugin", Fields: []string{"definedQuotas"}, Mutex: "mutex", MinSites: 2},
